@@ -18,7 +18,7 @@ EXT = {   # family -> (binary, monitor module, TLA library dirs, driver argument
     "C04": ("c04", "Trace_C04", ("C01",), ["--max-words", "4"]),
     "C06": ("c06", "Trace_C06", (), ["--max-words", "6"]),
     "C07": ("c07", "Trace_C07", ("C01",), ["--max-words", "8"]),
-    "C10": ("c10", "Trace_C10", ("C03",), ["--max-prec", "90"]),      # more than 32 and more than 64 fractional bits: both word sizes split a word
+    "C10": ("c10", "Trace_C10", ("C03",), ["--max-prec", "40", "--wide-frac", "60"]),   # fractions wider than a word of either size
     "C12": ("c12", "Trace_C12", (), ["--max-words", "6"]),
     "C13": ("c13", "Trace_C13", (), ["--max-words", "6"]),
     "C14": ("c14", "Trace_C14", ("C06",), ["--n-scale", "4"]),
